@@ -62,3 +62,26 @@ def task_fn(i, fail=None):
   if fail is not None and i == fail:
     raise ValueError(f'application error in task {i}')
   return ('r', i)
+
+
+class CustomError(Exception):
+  """An application-defined exception type."""
+
+
+_EXC = {'ValueError': ValueError, 'KeyError': KeyError,
+        'ZeroDivisionError': ZeroDivisionError, 'RuntimeError': RuntimeError,
+        'TimeoutError': TimeoutError, 'TypeError': TypeError, 'OSError': OSError,
+        'LookupError': LookupError, 'AssertionError': AssertionError,
+        'CustomError': CustomError}
+
+
+def boom2(kind, msg):
+  raise _EXC[kind](msg)
+
+
+def ident(x):
+  return x
+
+
+def kw_add(*, a=0, b=0):
+  return a + b
